@@ -687,7 +687,7 @@ fn run_c14(seed: u64, tier: Tier) -> i32 {
   let mut findings: Vec<report::Finding> = minimised.into_iter().map(|(run, violation)| report::Finding { run, violation }).collect();
   eprintln!("phase native done: {:.1}s", t0.elapsed().as_secs_f64());
   // engine B
-  let ph = miri_phase("C14", "c14", 6, seed, tier);
+  let ph = miri_phase("C14", "c14", 7, seed, tier);
   eprintln!("phase miri done: {:.1}s ({} outcomes)", t0.elapsed().as_secs_f64(), ph.runs);
   findings.extend(ph.findings);
   agg.harness_errors.extend(ph.harness_errors);
